@@ -748,7 +748,7 @@ impl Check for C13 {
     fn cases(&self, tier: Tier) -> u64 {
         match tier {
             Tier::Quick => 50_000,
-            Tier::Thorough => 3_000_000,
+            Tier::Thorough => 2_000_000,
         }
     }
     fn run_case(&self, ctx: &mut CaseCtx) {
